@@ -262,7 +262,31 @@ fn g4() -> Vec<Case> {
         prog.push(var_stmt("Sup", e.clone()));
         prog.push(st(StmtKind::Try(vec![class_stmt("Sub", Some("Sup"), Some("new"), vec![]), print_stmt(s("defined"))], Some(("err".into(), vec![print_stmt(call(var("type"), vec![var("err")]))])), None)));
         prog.push(print_stmt(s("after")));
-        out.push(Case::new("G4_non_class_superclass", prog));
+        out.push(Case::new("G4_non_class_superclass", prog.clone()));
+        // the failed declaration had members of its own; classes declared afterwards (at once, in a
+        // function, deriving one another) have exactly their own members and work
+        let mut prog = prelude.clone();
+        prog.push(var_stmt("Sup", e.clone()));
+        prog.push(st(StmtKind::Try(
+            vec![
+                class_stmt("Sub", Some("Sup"), Some("new"), vec![method(FnKind::Method, "left_behind", &[], vec![ret(s("a method of the class that failed"))]), method(FnKind::Static, "left_static", &[], vec![ret(s("a static method of the class that failed"))])]),
+                print_stmt(s("defined")),
+            ],
+            Some(("err".into(), vec![print_stmt(call(var("type"), vec![var("err")]))])),
+            None,
+        )));
+        prog.push(class_stmt("Later", None, Some("new"), vec![method(FnKind::Method, "own", &[], vec![ret(s("Later's own method"))])]));
+        prog.push(var_stmt("l", invoke(var("Later"), "new", vec![])));
+        prog.push(probe(invoke(var("l"), "own", vec![])));
+        prog.push(probe(invoke(var("l"), "left_behind", vec![])));
+        prog.push(probe(invoke(var("Later"), "left_static", vec![])));
+        prog.push(fn_stmt(func("mk", &[], vec![class_stmt("Inner", Some("Later"), Some("new"), vec![method(FnKind::Method, "inner", &[], vec![ret(s("Inner's method"))])]), ret(invoke(var("Inner"), "new", vec![]))])));
+        prog.push(var_stmt("i", call(var("mk"), vec![])));
+        prog.push(probe(invoke(var("i"), "inner", vec![])));
+        prog.push(probe(invoke(var("i"), "own", vec![])));
+        prog.push(probe(invoke(var("i"), "left_behind", vec![])));
+        prog.push(probe(invoke(var("i"), "derives", vec![var("Later")])));
+        out.push(Case::new("G4_classes_declared_after_a_failed_declaration", prog));
     }
     // deriving from the built-in Error hierarchy
     for base in ["Error", "TypeError", "StopIter"] {
@@ -551,6 +575,11 @@ fn g8() -> Vec<Case> {
     out
 }
 
+/// every family (C10, C02: programs that end in errors belong to the comparison)
+pub fn cases_all(thorough: bool) -> Vec<Case> {
+    g1(thorough).into_iter().chain(g2()).chain(g3()).chain(g4()).chain(g5()).chain(g6()).chain(g7()).chain(g8()).collect()
+}
+
 pub fn cases_for_c04(thorough: bool) -> Vec<Case> {
     g1(thorough).into_iter().chain(g2()).chain(g3()).chain(g5()).chain(g6()).collect()
 }
@@ -564,7 +593,7 @@ pub fn run(ctx: &Ctx) -> Report {
     mcheck::fill_report(
         &mut report,
         &stats,
-        "G1: every hierarchy of depth 1-3 where each class independently has method m absent / plain / overriding through super.m() / through super.m taken as a value / through super.m() inside a lambda nested in the method, optionally n calling self.m(), and one of four constructor forms; probed with calls, bound values, wrong arity, unknown members, fields shadowing methods, type and derives on instances of the two most derived classes. G2: static methods and Self through class, instance and subclass instance. G3: classes in local scopes, captured variables, rebound superclass names. G4: every non-class value as superclass; deriving built-in error classes. G5: construction, arity, invoke == get-then-call. G6: the receiver of super in instance, static and constructor methods under 5 nestings of the expression and 5 places the class can be declared in, through class, subclass and instances. G7: `derives`, the member every class has from Object, defined anew at each level of a hierarchy of depth 1-3 and found (call, value, super, self call) from that level and every level below. G8: sixteen kinds of value (named function, lambda, closure, bound methods, built-in functions, bound built-in methods, constructor and static method as values, class, instance, number, nil) stored in an instance field named like a method, in a fresh field and in a module attribute, and called with 0-2 arguments by method-call syntax, after taking the member, and through a variable. non-trivial = at least four observations.",
+        "G1: every hierarchy of depth 1-3 where each class independently has method m absent / plain / overriding through super.m() / through super.m taken as a value / through super.m() inside a lambda nested in the method, optionally n calling self.m(), and one of four constructor forms; probed with calls, bound values, wrong arity, unknown members, fields shadowing methods, type and derives on instances of the two most derived classes. G2: static methods and Self through class, instance and subclass instance. G3: classes in local scopes, captured variables, rebound superclass names. G4: every non-class value as superclass, and after each such failed declaration (which had methods of its own) further classes declared at top level and in a function, which have exactly their own and their ancestors' members; deriving built-in error classes. G5: construction, arity, invoke == get-then-call. G6: the receiver of super in instance, static and constructor methods under 5 nestings of the expression and 5 places the class can be declared in, through class, subclass and instances. G7: `derives`, the member every class has from Object, defined anew at each level of a hierarchy of depth 1-3 and found (call, value, super, self call) from that level and every level below. G8: sixteen kinds of value (named function, lambda, closure, bound methods, built-in functions, bound built-in methods, constructor and static method as values, class, instance, number, nil) stored in an instance field named like a method, in a fresh field and in a module attribute, and called with 0-2 arguments by method-call syntax, after taking the member, and through a variable. non-trivial = at least four observations.",
         json!({"hierarchy_depth": 3, "per_class_choices": 40}),
     );
     report.assumptions = vec!["static methods and constructors are looked up on the class they were defined in and on instances, not through subclasses' class objects (Appendix A)".into()];
